@@ -87,9 +87,14 @@ def main():
             return res
 
         r0 = run_demos("without patch")
-        if any(rc != 0 for _, rc in r0):
+        # an untagged demo is also tried under -tags binary_log; a variant that fails already WITHOUT the patch says
+        # nothing about the patch (e.g. a demo about the JSON build) and is left out, as long as another variant passes
+        usable = [c for c, rc in r0 if rc == 0]
+        if not usable:
             print("DEMO FAILS WITHOUT THE PATCH")
             ok = False
+        elif len(usable) < len(r0):
+            meta["demo_variants_ignored"] = [c for c, rc in r0 if rc != 0]
         rc, out = sh(["git", "-C", fresh, "apply", "--whitespace=nowarn", patch])
         if rc != 0:
             print("PATCH DOES NOT APPLY:", out[:400])
@@ -116,7 +121,7 @@ def main():
         print("   existing suite with patch: %d/%d baseline tests pass, missing %s" % (len(base & passed), len(base), missing[:5]))
         if missing:
             ok = False
-        r1 = run_demos("with patch")
+        r1 = [(c, rc) for c, rc in run_demos("with patch") if c in usable]
         if all(rc == 0 for _, rc in r1):
             print("DEMO PASSES WITH THE PATCH")
             ok = False
